@@ -210,3 +210,71 @@ def gen_text(init_path):
         raise TranslateError("C05 translator: %d definitions of Process.children" % len(fns))
     return ("(* Process.children() of psutil/__init__.py, translated statement by statement (props/_c05_gen.py) *)\n"
             "Definition c05_children : children_prog :=\n  %s.\n" % children_prog(fns[0]))
+
+
+# ------------------------------------------------------------------ Process.parent()
+def is_none(n):
+    return isinstance(n, ast.Constant) and n.value is None
+
+
+def pstmt(s):
+    if isinstance(s, ast.Expr) and is_call(s.value, 0) and is_self_attr(s.value.func, "_raise_if_pid_reused"):
+        return "PCheck"
+    if isinstance(s, ast.Assign) and len(s.targets) == 1:
+        t, v = s.targets[0], s.value
+        if is_name(t) and isinstance(v, ast.IfExp):
+            c = v.test
+            if isinstance(c, ast.Compare) and len(c.ops) == 1 and isinstance(c.ops[0], ast.IsNot) \
+                    and is_name(c.left, "_LOWEST_PID") and is_none(c.comparators[0]) and is_name(v.body, "_LOWEST_PID") \
+                    and isinstance(v.orelse, ast.Subscript) and is_call(v.orelse.value, 0) \
+                    and is_name(v.orelse.value.func, "pids") and isinstance(v.orelse.slice, ast.Constant) \
+                    and v.orelse.slice.value == 0:
+                return "PLowest %s" % q(t.id)
+            bad(s, "lowest-pid expression")
+        if is_name(t) and is_call(v, 0) and is_self_attr(v.func, "ppid"):
+            return "PPpid %s" % q(t.id)
+        if is_name(t) and is_call(v, 1) and is_name(v.func, "Process"):
+            return "PNewProc %s %s" % (q(t.id), ex(v.args[0]))
+        if isinstance(t, ast.Tuple) and len(t.elts) == 2 and all(is_name(e) for e in t.elts) and is_call(v, 1) \
+                and is_self_attr(v.func, "_start_times") and is_name(v.args[0]):
+            return "PStartTimes %s %s %s" % (q(t.elts[0].id), q(t.elts[1].id), q(v.args[0].id))
+        bad(s, "assignment in parent()")
+    if isinstance(s, ast.If) and not s.orelse:
+        c = s.test
+        if isinstance(c, ast.Compare) and len(c.ops) == 1 and isinstance(c.ops[0], ast.IsNot) and is_name(c.left) \
+                and is_none(c.comparators[0]):
+            return "PIfNotNone %s %s" % (q(c.left.id), lst(pstmt(x) for x in s.body))
+        if len(s.body) == 1 and isinstance(s.body[0], ast.Return):
+            r = s.body[0].value
+            if r is None or is_none(r):
+                return "PIfReturnNone %s" % cond(c)
+            if is_name(r):
+                return "PIfReturnProc %s %s" % (cond(c), q(r.id))
+        bad(s, "if in parent()")
+    if isinstance(s, ast.Try):
+        if s.orelse or s.finalbody or len(s.handlers) != 1:
+            bad(s, "try shape")
+        return "PTry %s %s" % (lst(pstmt(x) for x in s.body), lst(handlers(s.handlers[0])))
+    bad(s, "statement in parent()")
+
+
+def parent_prog(fn):
+    a = fn.args
+    if [x.arg for x in a.args] != ["self"] or a.vararg or a.kwarg or a.kwonlyargs or a.posonlyargs or a.defaults \
+            or fn.decorator_list:
+        bad(fn, "signature of parent")
+    body = list(fn.body)
+    if body and isinstance(body[0], ast.Expr) and isinstance(body[0].value, ast.Constant) \
+            and isinstance(body[0].value.value, str):
+        body = body[1:]
+    return lst(pstmt(s) for s in body)
+
+
+def gen_text_parent(init_path):
+    tree = ast.parse(open(init_path, encoding="utf-8").read())
+    fns = [n for c in tree.body if isinstance(c, ast.ClassDef) and c.name == "Process"
+           for n in c.body if isinstance(n, (ast.FunctionDef, ast.AsyncFunctionDef)) and n.name == "parent"]
+    if len(fns) != 1 or not isinstance(fns[0], ast.FunctionDef):
+        raise TranslateError("C05 translator: %d definitions of Process.parent" % len(fns))
+    return ("\n(* Process.parent() of psutil/__init__.py, translated statement by statement (props/_c05_gen.py) *)\n"
+            "Definition c05_parent : list pstmt :=\n  %s.\n" % parent_prog(fns[0]))
